@@ -300,6 +300,7 @@ def check_C09(ctx):
     cleans = {s['twin'] for s in singles}
     junk_total = sum(len(s.get('inject', [])) for s in scen)
     ctx.extra['junk_packets'] = junk_total
+    ctx.evaluations = junk_total      # one evaluation = one junk packet injected into a real run
     for s in scen:
         for inj in s.get('inject', []):
             ctx.nontrivial.add('%s/%s' % (s['variant'], inj['tag']))
@@ -676,7 +677,7 @@ def check_C13(ctx):
     tp, evs = run_all(scen, 'lab')
     ctx.evaluations += len(scen); ctx.validated += len(scen)
     ctx.nontrivial.update(s['label'] for s in scen)
-    ctx.states += r.distinct; ctx.transitions += max(r.generated, 1)
+    ctx.states += len(scen); ctx.transitions += len(scen)      # KernelPath is a finite configuration space, not a transition system
     ctx.samples.append({'configuration': scen[0], 'observed': evs[0][-1]})
     viol = [sid for pr, sid in vt.observe(ctx, [tp], ['C13']) if pr == 'C13']
     by = {s['id']: s for s in scen}
